@@ -290,6 +290,17 @@ def gen_c09(seed, index):
         for op in scn["ops"]:
             if op["op"] in ("fit", "pfit"):
                 op["r"] = [1 for _ in op["r"]]
+    r3 = random.Random("%s/C09-small/%s" % (seed, index))
+    u3 = r3.random()
+    if g.lpk != "thompson" and u3 < 0.2:
+        for op in scn["ops"]:
+            if op["op"] in ("fit", "pfit"):
+                if u3 < 0.1:
+                    # tiny rewards: differences far below any "reasonable" rounding of the expectations
+                    op["r"] = [x * 2.0 ** -40 if isinstance(x, (int, float)) else x for x in op["r"]]
+                else:
+                    # decimal rewards: means that are equal in exact arithmetic and an ulp apart in floating point
+                    op["r"] = [r3.choice([0.1, 0.2, 0.3, 0.2]) for _ in op["r"]]
     g.ops = []
     # often finish the history with an arm change and a warm start right before the queries
     if g.npk is None and rng.random() < 0.5:
@@ -467,6 +478,30 @@ def gen_c19(seed, index):
         {"pfit": lambda: g.op_train("pfit"), "query": g.op_query, "add": g.op_add, "rem": g.op_rem, "warm": g.op_warm}[k]()
     g.op_query("pexp")
     return {"cfg": scn["cfg"], "ops": scn["ops"], "cont": g.ops, "how": rng.choice(["deepcopy", "pickle2", "pickle3", "pickle4", "pickle5"])}
+
+
+def gen_c19_large(seed, index):
+    """histories of 2^k + 1 .. 2^(k+1) stored rows (k = 7, 8) under the policies that keep row positions or whole
+    histories: whatever representation a copy / pickle chooses for positions and rows must hold all of them"""
+    rng = random.Random("%s/C19-large/%s" % (seed, index))
+    npk = ["lsh", "lsh", "knn", "radius", "clusters", "lsh"][index % 6]
+    lpk = rng.choice(["ucb", "greedy", "softmax", "thompson", "linucb"])
+    lp = G.gen_lp(rng, lpk)
+    arms = [1, 2, 3]
+    d = 2
+    npc = G.gen_np(rng, npk, len(arms), d)
+    if npc["k"] in ("radius", "lsh"):
+        npc["probs"] = None
+    n = rng.choice([129, 200, 256, 257, 300, 130])
+    rew = (lambda: rng.choice([0, 1])) if lpk == "thompson" else (lambda: rng.choice([0, 1, 2, 3, 5]))
+    rows = [[float(rng.randint(0, 6)), float(rng.randint(0, 6))] for _ in range(n)]
+    fit = {"op": "fit", "d": [rng.choice(arms) for _ in range(n)], "r": [rew() for _ in range(n)], "c": rows}
+    q = {"op": "pexp", "c": [list(rows[i]) for i in (0, n // 2, n - 1, n - 2)] + [[3.0, 3.0]]}
+    more = {"op": "pfit", "d": [rng.choice(arms) for _ in range(5)], "r": [rew() for _ in range(5)],
+            "c": [[float(rng.randint(0, 6)), float(rng.randint(0, 6))] for _ in range(5)]}
+    cfg = {"lp": lp, "np": npc, "arms": arms, "seed": rng.randint(0, 10 ** 6), "binz": None, "n_jobs": 1}
+    return {"cfg": cfg, "ops": [fit], "cont": [dict(q), dict(q, op="pred"), more, dict(q)],
+            "how": ["deepcopy", "pickle2", "pickle4", "pickle5", "pickle3"][index % 5]}
 
 
 def _clone(mab, how):
@@ -1430,7 +1465,9 @@ def is_k1(scn, reason):
 
 # ------------------------------------------------------------------ C20 invariance to arm names, row order, reward shift / scale
 
-RELABEL = {"int": lambda i: 100 + 3 * i, "str": lambda i: chr(97 + i) * (1 + i), "float": lambda i: 0.25 + 1.5 * i}
+RELABEL = {"int": lambda i: 100 + 3 * i, "str": lambda i: chr(97 + i) * (1 + i), "float": lambda i: 0.25 + 1.5 * i,
+           # ... and onto labels that are falsy (0, 0.0, the empty string)
+           "int0": lambda i: i, "float0": lambda i: 1.5 * i, "str0": lambda i: "x" * i}
 
 
 def gen_c20(seed, index):
@@ -1440,6 +1477,8 @@ def gen_c20(seed, index):
     scn = g.build()
     scn["target"] = rng.choice(["int", "str", "float"])
     scn["perm_seed"] = rng.randint(0, 10 ** 6)
+    if random.Random("%s/C20-falsy/%s" % (seed, index)).random() < 0.3:
+        scn["target"] = ["int0", "float0", "str0"][index % 3]
     return scn
 
 
@@ -1977,6 +2016,16 @@ def gen_c18(seed, index):
                 op["c"] = [[x + rng.choice([0.0, 0.5]) for x in row] for row in op["c"]]
             first = False
     scn["variant"] = rng.choice(["ndarray", "ndarray_f", "ndarray_int", "pandas", "noncontig", "ndarray", "pandas"])
+    if scn["cfg"]["lp"]["k"] in G.LIN_KINDS + ["lingreedy"] or scn["cfg"].get("np"):
+        rv = random.Random("%s/C18-reuse/%s" % (seed, index))
+        if rv.random() < 0.25:
+            scn["variant"] = rv.choice(["list_reused", "frame_reused"])
+            # repeat the query sizes so that a buffer of the same shape comes back with other numbers
+            qs = [op for op in scn["ops"] if op["op"] in ("pexp", "pred") and op.get("c")]
+            if qs:
+                extra = copy.deepcopy(qs[-1])
+                extra["c"] = [[x + 1.0 for x in row] for row in extra["c"]]
+                scn["ops"] = scn["ops"] + [extra, copy.deepcopy(qs[-1])]
     # string labels: now and then the first training batch names only the shortest labels, so that a longer label
     # arrives later (fixed-width string arrays must not truncate it, whatever the container)
     arms = scn["cfg"]["arms"]
@@ -2046,11 +2095,28 @@ def containers_and_caller_objects(scn):
     a = MAB(arms_a, lp, npo, seed=cfg.get("seed", 1))
     b = MAB(arms_b, S.make_lp(cfg["lp"], cfg.get("binz")), S.make_np(cfg.get("np")), seed=cfg.get("seed", 1))
     variant = scn.get("variant", "ndarray")
+    buffers = {}
     for i, op in enumerate(scn["ops"]):
         ra = T.apply_op(a, op)
         k = op["op"]
         if k in ("fit", "pfit", "pexp", "pred"):
-            cont = _containers(op, variant, True)
+            cont = _containers(op, "ndarray" if variant.endswith("_reused") else variant, True)
+            if variant.endswith("_reused") and cont.get("c") is not None and k in ("pexp", "pred"):
+                # the caller keeps one *query* buffer per shape and overwrites it in place between calls: what the bandit
+                # answers depends on the numbers in the buffer at the time of the call, not on the object's identity.
+                # (Training containers are always fresh objects: a bandit may keep a view of the array it was trained on,
+                # and what happens when the caller later edits that array is outside the property.)
+                import pandas as pd
+                m = np.asarray(cont["c"], dtype=float)
+                key = (variant, m.shape)
+                if key not in buffers:
+                    buffers[key] = [list(map(float, row)) for row in m] if variant == "list_reused" else pd.DataFrame(m.copy())
+                elif variant == "list_reused":
+                    for brow, row in zip(buffers[key], m):
+                        brow[:] = [float(x) for x in row]
+                else:
+                    buffers[key].iloc[:, :] = m
+                cont["c"] = buffers[key]
             before = {kk: _snap(v) for kk, v in cont.items()}
             try:
                 if k in ("fit", "pfit"):
